@@ -15,7 +15,7 @@ TRUST = ("Trusted base: the harness's own reference models/oracles and recording
 P = {
  "c01": ("exploration", "relational oracle between the drawing paths (draw on a draw_iter-only target, draw on a native-fill target that pulls every colour, draw on a native-fill target that skips invisible colours with Iterator::nth, pixels() via draw_iter) on bounded/unbounded boxes and through cropped/clipped/translated views of a parent; recorded pixel maps compared, also on targets that consume with for_each (Iterator::fold); pixels() consumed through count/last/fold/nth; thin one-colour rounded rectangles with independently confined radii; fonts with tens of thousands of glyphs",
          "Every generated drawable (8 styled primitives, polylines, raw images and sub-images in several colour depths, text in built-in and custom fonts) is rendered by the real code on two recording targets and through pixels(); the final pixel maps must be equal. Exhaustive over small sizes/styles, random beyond.", "4 C01"),
- "c02": ("exploration", "event-log invariant: every point a drawable touches on an unbounded recording target must satisfy bounding_box().contains; transparent styles touch nothing",
+ "c02": ("exploration", "event-log invariant: every point a drawable touches on an unbounded recording target must satisfy bounding_box().contains; transparent styles touch nothing; polylines whose vertices field was assigned after construction compared with freshly constructed ones",
          "Touched-point sets of real draw() runs are checked against bounding_box() for all drawables incl. text in every built-in font of the working tree x decorations x baselines x alignments x line heights.", "4 C02"),
  "c03": ("exploration", "online reference-model monitor: set-theoretic model of adapter stacks (clipped/cropped/translated/color_converted, depth <= 3) run in lockstep with random operation histories; parent state, event log and bounding boxes compared after every operation; parents pulling with next() or consuming with for_each, streams with exact, partial and absent size hints; virtual canvases (areas up to 2^20 wide with up to 2^20 rows above the parent window, colour streams positioning in O(1), offsets of the first visible colour up to 2^36), half of the offsets exact special values (multiples of 2^16 - 1, 2^16, powers of two and neighbours)",
          "Random histories of draw_iter/fill_contiguous/fill_solid/clear with unique colours per write through all adapter nestings up to depth 3 over native and default-fill parents with arbitrary boxes; the innermost parent's pixel map must equal the model's after each operation, nothing outside the composed clip may reach it, and the trait defaults must emit exactly zip(row-major points, colours).", "4 C03"),
@@ -31,7 +31,7 @@ P = {
          "Every constructor/query/draw over the stated display-scale domain is executed under the monitors; a repository panic, an allocation or an exhausted step budget is a violation.", "4 C08"),
  "c09": ("exploration", "independent decoder of the documented raw layouts as reference model; recorded pixel maps (unbounded and bounded targets; colour stream pulled with next() or skipped with nth()) and the number of colours drained from the fill_contiguous stream compared with the model; images with one side beyond 16 bits; sub-images starting at exact special offsets of the pixel stream",
          "7 raw widths x 2 data orders x small sizes exhaustive x random bytes x offsets x sub-image areas (nested twice).", "4 C09"),
- "c10": ("exploration", "history + executable model: random write histories on Framebuffer instantiations (7 depths x 2 orders x several sizes, exact and oversized buffers) with a reference map updated in lockstep; pixel(), data(), as_image() (drawn on unbounded and bounded targets) compared after every operation; fills reaching beyond i32::MAX (about 2^31 points walked by the documented default)",
+ "c10": ("exploration", "history + executable model: random write histories on Framebuffer instantiations (7 depths x 2 orders x several sizes, exact and oversized buffers) with a reference map updated in lockstep; pixel(), data(), as_image() (drawn on unbounded and bounded targets) compared after every operation; fills reaching beyond i32::MAX (about 2^31 points walked by the documented default); histories that continue on a clone of the framebuffer",
          "Read-your-writes, no write outside, tail bytes untouched, layout equals ImageRaw's.", "4 C10"),
  "c11": ("exploration", "independent encoder of the two documented layouts as reference model for store/load; iterator positions and size_hint after random next()/nth() mixes compared with load(i); the iterator consumed through count/last/fold/skip, also after an overshooting nth(huge); documented bit widths; buffers up to megabytes (size_hint, load, nth, tail consumers, store); lazily mapped buffers with more than 2^32 pixels; nth after 1..=3 x next() on large buffers",
          "7 raw types x 2 orders x all indices in buffers 0..=L x all values up to 16 bits (exhaustive) / boundary+random 24/32 bits x background patterns.", "4 C11"),
@@ -41,7 +41,7 @@ P = {
          "Quick: all values up to 16 bits, per-channel exhaustive + random for 24-bit sources; thorough: every source value of every pair.", "4 C13"),
  "c14": ("exploration", "reference model of glyph placement (atlas cell designated by the font's mapping, read with font.image.pixel) compared with the recorded pixel map of Text::draw on unbounded and bounded targets; data checks over every built-in font and mapping incl. all 1.1 million scalar values per mapping; range mappings across the surrogate gap; fonts with tens of thousands of glyphs; special characters at string starts",
          "All built-in fonts of the working tree x every mapped character + unmapped ones x colour/decoration combinations; custom fonts with spacing and odd atlases.", "4 C14"),
- "c15": ("exploration", "relational oracles on recorded pixel maps and returned positions: draw vs measure_string, chained drawing vs concatenation, alignment/baseline geometry of the painted line boxes, multi-line vs separately drawn lines, CRLF vs LF, same position and visible part on bounded targets; exhaustive sweep of LineHeight::to_absolute against floor(base * percent / 100); special characters (byte order mark, separators, non-characters) at string and line starts; every text also drawn with a style assembled by assigning the public fields of a style constructed for another font",
+ "c15": ("exploration", "relational oracles on recorded pixel maps and returned positions: draw vs measure_string, chained drawing vs concatenation, alignment/baseline geometry of the painted line boxes, multi-line vs separately drawn lines, CRLF vs LF, same position and visible part on bounded targets; exhaustive sweep of LineHeight::to_absolute against floor(base * percent / 100); special characters (byte order mark, separators, non-characters) at string and line starts; every text also drawn with a style assembled by assigning the public fields of a style constructed for another font and by a builder that sets the font last",
          "Strings incl. empty lines/trailing newline/CRLF/unmapped characters x built-in fonts x alignments x baselines x line heights x decorations x positions.", "4 C15"),
  "c16": ("exploration", "reference model (explicit point sets / i64 interval pairs) compared with the public Rectangle methods (contains and offset through the inherent methods and the ContainsPoint/OffsetOutline traits, points() also through count/last/fold/nth from partly consumed states); exhaustive over a small grid, random up to +-2^20; operands from powers of two, their neighbours and 1.5 x 2^k",
          "All ordered pairs of grid rectangles incl. zero sizes, every rectangle x anchors x sizes x offsets, plus random large rectangles.", "4 C16"),
@@ -51,7 +51,7 @@ P = {
          "Exhaustive over diameters/axis pairs/radius combinations/1-degree angle grids up to the stated bounds, random fractional angles; default and fixed_point builds.", "4 C18"),
  "c19": ("exploration", "exact cross-product oracles over point sets from Triangle::points(), Styled<Triangle>::pixels() and Polyline::points(): interior coverage, 1-px edge band, vertex-order independence, shared-edge gap freedom, outline/polyline = union of Line segments; draw() of fills, outlines and polylines on unbounded and bounded targets; triangles and polylines far from the origin; edges of 2500..6500 px",
          "All vertex triples on a small grid (exhaustive) and random larger ones; all pairs of triangles sharing an edge; polylines of 0..=6 vertices.", "4 C19"),
- "c20": ("exploration", "history + executable model: independent map model of MockDisplay run in lockstep with random draw histories under the four flag combinations (set explicitly or left at their documented defaults, displays built with new/default/from_points/clone), every operation inside catch_unwind (panic iff the model predicts one); pattern/Debug round trips; far points that alias a display cell modulo 64, 4096 or a power of two; single calls with more than 2^20 points",
+ "c20": ("exploration", "history + executable model: independent map model of MockDisplay run in lockstep with random draw histories under the four flag combinations (set explicitly or left at their documented defaults, displays built with new/default/from_points/clone), every operation inside catch_unwind (panic iff the model predicts one); pattern/Debug round trips; far points that alias a display cell modulo 64, 4096 or a power of two; single calls with more than 2^20 points; flags reached through sequences of setter calls",
          "Random histories with in/out-of-range and repeated points; all colour alphabets for from_pattern/Debug.", "4 C20"),
 }
 
